@@ -114,6 +114,18 @@ CLAIMED["C02"] = ("TLC checks totality, no-open-under-/dev and termination of th
             "Trusted: TLC, the watchdog/worker isolation, inotify, the concretisation of classes by the scenario builder; dev profile (overflow = panic).",
             "TLA+ model checking (TLC, safety + liveness) + model-generated scenarios + trace validation", "DESIGN.md 4/C02")
 
+CLAIMED["C18"] = ("TLC checks auxv precedence, one-entry-per-line with the protection table, and the handle bijection on ProcStreams; dumps of targets with generated argv / "
+            "environment / descriptors / mappings / synthetic linker chains are decoded and TLC compares the memory-info list (via the model's table), handle "
+            "descriptors, system information and the linker list with what the harness reads from /proc; the five raw copies are byte-compared by the harness and "
+            "only judged by TLC (translation-validation-like).",
+            "Trusted: TLC, mdparse, /proc of the blocked target as read by the harness, /proc/cpuinfo + uname for system information; status/cpuinfo raw streams are not compared (volatile).",
+            "TLA+ model checking (TLC) + scenario-generated dumps + trace validation", "DESIGN.md 4/C18")
+CLAIMED["C08"] = ("TLC checks which mappings are listed, entry-first and caller-mappings-last on ModuleList for every small mapping list; targets map generated ELF images "
+            "(with/without build-id note or SONAME, zero id, non-ELF, deleted, embedded at a non-zero offset, hostile names) next to the machine's own ld.so/libc/vDSO; "
+            "TLC compares the decoded module list with ModuleList!Modules over the target's mapping groups and the independent reader's ids/SONAMEs.",
+            "Trusted: TLC, mdparse, the harness's independent ELF reader, its transcription of the aggregator's grouping (the model validated by C13), the name-candidate strings built by the projection.",
+            "TLA+ model checking (TLC) + scenario-generated dumps + trace validation", "DESIGN.md 4/C08")
+
 NOT_YET = {
 }
 
